@@ -59,13 +59,16 @@ def generate(rng, tier):
         case = {"dec": dec, "gdims": gd, "gvals": gvals, "dims": dims,
                 "func": rng.choice(["diff", "interp", "min", "max"]), "axis": rng.choice(["X", "Y"]),
                 "to": rng.choice(["left", "right"]),
-                "rule": rng.choice(["extend", "fill", "periodic"]), "fill": rng.choice([0, 4, -3])}
+                "rule": rng.choice(["extend", "fill", "periodic"]), "fill": rng.choice([0, 4, -3, 0.5, -2.5]),
+                # how the numbers are held (whole numbers throughout): a fractional fill value must survive
+                "dtype": rng.choice(["float64", "float64", "int64", "float32"])}
         # the order in which the faces are LISTED in the face_connections dictionary is arbitrary
         listing = list(range(len(dec["conn"])))
         rng.shuffle(listing)
         case["listing"] = listing
         # ... and so are the labels the dataset gives its faces (0..n-1, 1-based, any distinct integers)
         nf_ = len(dec["conn"])
+        case["links_as_lists"] = rng.random() < 0.25
         case["labels"] = None if rng.random() < 0.7 else rng.choice([list(range(1, nf_ + 1)), rng.sample(range(0, 12), nf_)])
         if aligned and rng.random() < 0.8:
             if rng.random() < 0.5:
@@ -103,7 +106,8 @@ def run_impl(case):
     ds = xr.Dataset(coords={"face": np.array(lab), "xc": np.arange(N), "xg": np.arange(N),
                             "yc": np.arange(N), "yg": np.arange(N)})
     listed = [d["conn"][i] for i in case.get("listing", range(len(d["conn"])))]
-    lk = lambda l: (lab[l[0]], l[1], l[2]) if l else None
+    seq = list if case.get("links_as_lists") else tuple      # a table read from JSON / YAML spells links as lists
+    lk = lambda l: seq((lab[l[0]], l[1], l[2])) if l else None
     fc = {"face": {lab[f]: {a: (lk(l), lk(r)) for a, (l, r) in fal} for f, fal in listed}}
     try:
         g = Grid(ds, coords={"X": {"center": "xc", "left": "xg", "right": "xg2"} if False else
@@ -111,7 +115,7 @@ def run_impl(case):
                              "Y": {"center": "yc", "left": "yg"}},
                  face_connections=fc, periodic=False, autoparse_metadata=False)
         base = ["face", "yc", "xc"] + (["t"] if extra else [])
-        da = xr.DataArray(Fv, dims=base).transpose(*case["dims"])
+        da = xr.DataArray(Fv.astype(case.get("dtype", "float64")), dims=base).transpose(*case["dims"])
         to = case["to"]
         if to == "right":
             # the grid only carries `left`: `right` is exercised through a second grid
